@@ -9,12 +9,11 @@ RULE = ("one case = one generated grammar (3 generators + malformed stream, 5 to
         "constructed with smart_factorization True and False, each followed by every token string up to the tier's "
         "length; non-trivial = at least one returned tree and at least one ParsingError in the case; distinct by protocol text")
 TRUSTED = ["re (lexemes are found by the harness with the tokenizer's own pattern)"]
-ASSUMPTIONS = ["hypotheses of C01.parse_valid: no right-hand side of `productions` names a `__` symbol (the constructor asserts "
-               "this for keys and terminals only; with `E -> A b | A c | E__S00` the real parse('b') returns E[b], not a user "
-               "production - such inputs are outside the generated domain); the start symbol is a key of `productions`; "
-               "no lexeme is named $END$",
-               "Python names are decoded into structured symbols (base, helper path) by the model's parseSym; names ending in "
-               "'_' next to a helper suffix are not generated"]
+ASSUMPTIONS = ["hypotheses of C01.parse_valid: the start symbol is one of the keys of `productions` (the constructor accepts "
+               "start_symbol_name='E__S00', a helper key of the factorised dictionary; the root of the tree is then a helper "
+               "symbol - kernel-evaluated example in Props/C01.lean; such start symbols are not generated); no lexeme is named "
+               "$END$ (synonyms/keywords do not map to the reserved name)",
+               "Python names are decoded into structured symbols (base, helper path) by the model's parseSym"]
 
 
 def impl(case):
@@ -45,14 +44,14 @@ def oracle(case, replies):
 
 def gen_cases(rng, tier):
     if tier == "quick":
-        yield from ll.gen_ll_cases(rng, 3000, 4)
+        yield from ll.gen_ll_cases(rng, 1200, 4, malformed_share=0.07)
     else:
         yield from ll.gen_ll_cases(rng, 12000, 5, extra_long=10)
         yield from ll.tiny_grammars(rng, limit=20000)
 
 
 def corpus():
-    return [ll.witness_case()]
+    return [ll.witness_case(), ll.dunder_witness_case()]
 
 
 def search_cases(rng, tier):
@@ -72,6 +71,7 @@ LEVEL_TEXT = ("Kernel-checked for ALL grammars, token lists and both smart_facto
               "constructor outcome, is_ambiguous() and every raw tree / error class compared on generated grammars x all short "
               "token strings; prods_map, suffix set, table, nullables, FIRST, FOLLOW compared as diagnostics.")
 LEVEL_NOTE = ("Trusted: Lean kernel (axioms propext, Classical.choice, Quot.sound), harness adapter/oracle, sampled "
-              "correspondence, re for lexemes. Hypotheses of the composed theorem: no `__` name on a right-hand side, start symbol "
-              "is a user key, no lexeme named $END$ (see ASSUMPTIONS).")
+              "correspondence, re for lexemes. Hypotheses of the composed theorem: start symbol is a user key, no lexeme named "
+              "$END$ (see ASSUMPTIONS); the reserved-name assertions of the constructor (repaired by a1a7d93 for right-hand sides) "
+              "are part of the model and exercised by a malformed stream.")
 TECHNIQUE = "Lean 4 theorems (invariant of the stack machine, induction over factorisation) + differential testing against the real LLParser"
